@@ -74,6 +74,7 @@ from .pool import pmap
 
 PID = "X05"
 WORKERS = 6
+sys.dont_write_bytecode = True
 SENTINEL_NS = 1_000_000_000 * 10 ** 9          # mtime given to every file before a command runs
 PRESET = [("proj",), ("proj", "components"), ("proj", "ui"), ("proj", "my_components"), ("lib",), ("outside",)]
 PathT = Tuple[str, ...]
@@ -129,8 +130,9 @@ def user_write(root: Path, path: PathT, data: bytes) -> None:
 
 
 @contextmanager
-def project(root: Path, cdirs: str):
-    """BASE_DIR = <root>/proj, cwd = BASE_DIR (as with manage.py), COMPONENTS.dirs unset or [BASE_DIR/ui]."""
+def project(root: Path, cdirs: str, in_base: bool):
+    """BASE_DIR = <root>/proj, COMPONENTS.dirs unset or [BASE_DIR/ui]; cwd = BASE_DIR when a relative --path is
+    passed (as with `python manage.py`), a directory outside the project otherwise."""
     from django.conf import settings
     old = (settings.BASE_DIR, settings.COMPONENTS)
     cwd = os.getcwd()
@@ -138,7 +140,7 @@ def project(root: Path, cdirs: str):
     if cdirs == "custom":
         comp["dirs"] = [root / "proj" / "ui"]
     settings.BASE_DIR, settings.COMPONENTS = root / "proj", comp
-    os.chdir(root / "proj")
+    os.chdir(root / "proj" if in_base else root / "outside")
     try:
         yield
     finally:
@@ -178,7 +180,7 @@ def start_args(root: Path, inv: Dict[str, Any]) -> List[str]:
 
 
 def run_start(root: Path, inv: Dict[str, Any]) -> Tuple[str, str]:
-    with project(root, "custom" if inv["w"] == "D" else "default"):
+    with project(root, "custom" if inv["w"] == "D" else "default", inv["w"] == "R"):
         return _call(start_args(root, inv))
 
 
@@ -189,7 +191,7 @@ def run_upgrade(root: Path, u: Dict[str, Any]) -> Tuple[str, str]:
         if pa is None:
             pa = str(root / "proj" / ("ui" if u["w"] == "D" else "components"))
         args += ["--path", pa]
-    with project(root, u["cdirs"]):
+    with project(root, u["cdirs"], u["usepath"] and u["w"] == "R"):
         return _call(args)
 
 
@@ -396,41 +398,61 @@ def _brief_outcome(o: Dict[str, Any]) -> Dict[str, Any]:
             "dirs": sorted("/".join(d) for d in o["dirs"])}
 
 
-def replay_start(row: Dict[str, Any]) -> Dict[str, Any]:
-    """Replay one exported transition: seed, the history with the real command, then the last invocation."""
+def build_source(row: Dict[str, Any]) -> Tuple[Optional[Path], Any]:
+    """A fresh world brought to the source state of `row`: seed, then the history with the real command.
+    Returns (root, note) or (None, detail of the mismatch)."""
     root = fresh_world()
+    for d in row["seeddirs"]:
+        root.joinpath(*d).mkdir(parents=True, exist_ok=True)
+    for p in row["seedfiles"]:
+        user_write(root, tuple(p), b"user file\n")
+    for inv in row["how"][:-1]:
+        run_start(root, inv)
+    files, dirs = scan(root)
+    want_files = {tuple(r["path"]) for r in row["pre"]}
+    want_dirs = {tuple(d) for d in row["predirs"]}
+    if set(files) == want_files and dirs == want_dirs:
+        return root, "history"
+    shutil.rmtree(root, ignore_errors=True)
+    if not any(i["w"] in ("N", "D") for i in row["how"][:-1]):
+        return None, {"stage": "source state after the history",
+                      "expected_files": sorted("/".join(p) for p in want_files),
+                      "observed_files": sorted("/".join(p) for p in files),
+                      "expected_dirs": sorted("/".join(p) for p in want_dirs),
+                      "observed_dirs": sorted("/".join(p) for p in dirs)}
+    # a step with several admitted outcomes (or a known deviation) went another way: build the state
+    root = fresh_world()
+    for d in want_dirs:
+        root.joinpath(*d).mkdir(parents=True, exist_ok=True)
+    for p in want_files:
+        user_write(root, p, b"materialised\n")
+    return root, "materialised"
+
+
+def restore(root: Path, before: Dict[PathT, Tuple[bytes, int]], dirs0: Set[PathT]) -> None:
+    """Put the world back into the scanned state `before` (bytes; mtimes are reset by freeze)."""
+    files, dirs = scan(root)
+    for p in files:
+        if p not in before:
+            root.joinpath(*p).unlink()
+    for p, (data, _) in before.items():
+        if p not in files or files[p][0] != data:
+            user_write(root, p, data)
+    for d in sorted(dirs - dirs0, key=len, reverse=True):
+        root.joinpath(*d).rmdir()
+    for d in dirs0 - dirs:
+        root.joinpath(*d).mkdir(parents=True, exist_ok=True)
+
+
+def replay_last(root: Path, row: Dict[str, Any], before: Dict[PathT, Tuple[bytes, int]], dirs0: Set[PathT]) -> Dict[str, Any]:
+    """The last invocation of `row` on the world in its source state; leaves the world in the source state."""
+    freeze(root, before)
+    res, out = run_start(root, row["inv"])
+    obs = observe_start(root, before)
+    dirty = any(f["changed"] for f in obs["files"].values()) or obs["dirs"] != dirs0 or set(obs["files"]) != set(before)
     try:
-        for d in row["seeddirs"]:
-            root.joinpath(*d).mkdir(parents=True, exist_ok=True)
-        for p in row["seedfiles"]:
-            user_write(root, tuple(p), b"user file\n")
-        for inv in row["how"][:-1]:
-            run_start(root, inv)
-        files, dirs = scan(root)
-        want_files = {tuple(r["path"]) for r in row["pre"]}
-        want_dirs = {tuple(d) for d in row["predirs"]}
-        note = "history"
-        if set(files) != want_files or dirs != want_dirs:
-            if not any(i["w"] in ("N", "D") for i in row["how"][:-1]):
-                return {"v": "bad", "detail": {"stage": "source state after the history",
-                                               "expected_files": sorted("/".join(p) for p in want_files),
-                                               "observed_files": sorted("/".join(p) for p in files),
-                                               "expected_dirs": sorted("/".join(p) for p in want_dirs),
-                                               "observed_dirs": sorted("/".join(p) for p in dirs)}}
-            # a step with several admitted outcomes (or a known deviation) went another way: build the state
-            shutil.rmtree(root)
-            root = fresh_world()
-            for d in want_dirs:
-                root.joinpath(*d).mkdir(parents=True, exist_ok=True)
-            for p in want_files:
-                user_write(root, p, b"materialised\n")
-            files, dirs = scan(root)
-            note = "materialised"
-        freeze(root, files)
-        res, out = run_start(root, row["inv"])
-        obs = observe_start(root, files)
         verdict, info = judge_start(row, res, obs)
-        r: Dict[str, Any] = {"v": verdict, "note": note, "res": res}
+        r: Dict[str, Any] = {"v": verdict, "res": res}
         if verdict == "dev":
             r["keys"] = info
         if verdict != "ok":
@@ -439,67 +461,163 @@ def replay_start(row: Dict[str, Any]) -> Dict[str, Any]:
                            "admitted": [_brief_outcome(o) for o in row["admitted"]]}
             return r
         # [S7] --verbose prints more than the same invocation without it (compared where nothing changes)
-        if res == "ok" and row["inv"]["dry"]:
-            twin = dict(row["inv"], verbose=not row["inv"]["verbose"])
-            res2, out2 = run_start(root, twin)
+        if res == "ok" and row["inv"]["dry"] and row.get("twin"):
+            res2, out2 = run_start(root, dict(row["inv"], verbose=not row["inv"]["verbose"]))
             lv, lp = (len(out), len(out2)) if row["inv"]["verbose"] else (len(out2), len(out))
             r["twin"] = 1
+            dirty = True
             if res2 != "ok" or lv <= lp:
                 return {"v": "bad", "detail": {"stage": "--verbose prints additional information",
+                                               "args": start_args(Path("<root>"), row["inv"]),
                                                "verbose_output_chars": lv, "plain_output_chars": lp, "twin": res2}}
         if info["written"] and row.get("deep"):
             inv = row["inv"]
             where = tuple(info["written"][0][:-2])
-            tag = next(x["tag"] for x in info["files"] if x["tag"]["role"] == "py" and tuple(x["path"][:-1]) == where + (inv["name"],))
+            tag = next(x["tag"] for x in info["files"]
+                       if x["tag"]["role"] == "py" and tuple(x["path"][:-1]) == where + (inv["name"],))
             bad = deep_load(root, where, inv["name"], tag)
             r["deep"] = 1
             if bad:
-                return {"v": "bad", "detail": dict(bad, stage="import of the generated module: " + bad["stage"])}
+                return {"v": "bad", "detail": dict(bad, stage="import of the generated module: " + bad["stage"],
+                                                   args=start_args(Path("<root>"), row["inv"]))}
         return r
     finally:
+        if dirty:
+            restore(root, before, dirs0)
+
+
+def replay_group(rows: List[Dict[str, Any]]) -> List[Dict[str, Any]]:
+    """Rows that share seed and history: the source state is produced once by the real command, every last
+    invocation runs in it (the world is put back after each)."""
+    root, note = build_source(rows[0])
+    if root is None:
+        return [{"v": "bad", "detail": note} for _ in rows]
+    try:
+        before, dirs0 = scan(root)
+        out = []
+        for row in rows:
+            r = replay_last(root, row, before, dirs0)
+            r["note"] = note
+            out.append(r)
+        return out
+    finally:
         shutil.rmtree(root, ignore_errors=True)
+
+
+def replay_start(row: Dict[str, Any]) -> Dict[str, Any]:
+    return replay_group([row])[0]
 
 
 def _set(xs: Iterable[Any]) -> str:
     return "{" + ", ".join(json.dumps(x) if isinstance(x, str) else str(x) for x in xs) + "}"
 
 
+class TlcJob:
+    """One TLC run in a forked child process (no threads in the parent, which forks replay workers meanwhile).
+    The child writes what tlc.run() reports next to the cfg; result() joins and returns it."""
+
+    def __init__(self, module: str, tag: str, cfgtext: str, rows_in: Optional[List[Any]] = None):
+        import multiprocessing as mp
+        w = workdir("x05tlc")
+        self.what = f"{module} {tag}"
+        self.cfg, self.io, self.meta = w / f"{tag}.cfg", w / f"{tag}.ndjson", w / f"{tag}.meta.json"
+        self.cfg.write_text(cfgtext)
+        env = {"OUT": str(self.io)}
+        if rows_in is not None:
+            tlc.write_ndjson(self.io, rows_in)
+            env = {"IN": str(self.io)}
+        self._done: Optional[Dict[str, Any]] = None
+        self.proc = mp.get_context("fork").Process(target=TlcJob._child, args=(module, str(self.cfg), env, str(self.meta)))
+        self.proc.start()
+
+    @staticmethod
+    def _child(module: str, cfg: str, env: Dict[str, str], meta: str) -> None:
+        from . import core as _core
+        _core._workdirs.clear()                  # the parent's scratch directories are not ours to remove
+        try:
+            r = tlc.run(module, cfg, env=env, workers=1)
+            d = {"ok": r.ok, "violated": r.violated, "distinct": r.distinct, "generated": r.generated, "out": r.out}
+        except BaseException as e:  # noqa: BLE001
+            d = {"ok": False, "violated": [], "distinct": 0, "generated": 0, "out": "tlc.run raised " + repr(e)}
+        Path(meta).write_text(json.dumps(d))
+        _core._cleanup()
+
+    def result(self) -> Dict[str, Any]:
+        if self._done is None:
+            self.proc.join(1500)
+            if self.proc.is_alive():
+                self.proc.kill()
+                raise MachineryError(f"TLC did not finish: {self.what}")
+            if not self.meta.exists():
+                raise MachineryError(f"TLC child died: {self.what}")
+            self._done = json.loads(self.meta.read_text())
+        return self._done
+
+    def require_ok(self) -> Dict[str, Any]:
+        d = self.result()
+        if not d["ok"]:
+            raise MachineryError(f"TLC failed on {self.what}:\n" + "\n".join(d["out"].splitlines()[-60:]))
+        return d
+
+
+_jobs: Dict[str, TlcJob] = {}
 _mc_cache: Dict[str, Tuple[List[Any], int, int]] = {}
 
 
+def export(module: str, tag: str, cfgtext: str, prefetch: bool) -> Optional[Tuple[List[Any], int, int]]:
+    """Rows exported by a TLC run of `module` under `cfgtext` (started in the background on first request)."""
+    key = module + "\n" + cfgtext
+    if key in _mc_cache:
+        return None if prefetch else _mc_cache[key]
+    if key not in _jobs:
+        _jobs[key] = TlcJob(module, tag, cfgtext)
+    if prefetch:
+        return None
+    job = _jobs.pop(key)
+    d = job.require_ok()
+    _mc_cache[key] = (tlc.read_ndjson(job.io), d["distinct"], d["generated"])
+    return _mc_cache[key]
+
+
 def mc_start(chk: Check, tag: str, names: List[str], wheres: List[str], seeds: List[int], depth: int,
-             opts: bool = True, deep_every: int = 16) -> None:
-    w = workdir("x05mc")
-    cfg, out = w / f"{tag}.cfg", w / f"{tag}.ndjson"
+             opts: bool = True, deep_every: int = 16, prefetch: bool = False) -> None:
     o = (lambda d: ["", d]) if opts else (lambda d: [""])
-    cfg.write_text(
+    cfgtext = (
         "SPECIFICATION MCSpec\nCONSTANTS\n"
         f"  Names = {_set(names)}\n  Wheres = {_set(wheres)}\n  JsOpts = {_set(o('my_script.js'))}\n"
         f"  CssOpts = {_set(o('my_style.css'))}\n  TplOpts = {_set(o('my_template.html'))}\n"
-        f"  SeedIdx = {_set(seeds)}\n  MaxDepth = {depth}\nVIEW View\nINVARIANT Theorems\nINVARIANT Export\n")
-    key = cfg.read_text()
-    if key not in _mc_cache:
-        r = tlc.require_ok(tlc.run("MC_X05", str(cfg), env={"OUT": str(out)}, workers=1), f"MC_X05 {tag}")
-        rows = tlc.read_ndjson(out)
-        if not rows or len(rows) != r.distinct - len(seeds):
-            raise MachineryError(f"MC_X05 {tag}: {len(rows)} rows exported for {r.distinct} states")
-        seen, uniq = set(), []
-        for row in rows:                      # one line per chosen outcome: keep one per (source state, invocation)
-            k = canon([row["seed"], row["pre"], row["predirs"], row["inv"]])
-            if k not in seen:
-                seen.add(k)
-                uniq.append(row)
-        _mc_cache[key] = (uniq, r.distinct, r.generated)
-    rows, distinct, generated = _mc_cache[key]
+        f"  SeedIdx = {_set(seeds)}\n  MaxDepth = {depth}\nVIEW View\nINVARIANT WellFormed\n"
+        "PROPERTY Theorems\nPROPERTY Export\n")
+    got = export("MC_X05", tag, cfgtext, prefetch)
+    if got is None:
+        return
+    rows, distinct, generated = got
+    if not rows or len(rows) != generated - len(seeds):
+        raise MachineryError(f"MC_X05 {tag}: {len(rows)} rows exported for {generated} generated states")
+    seen, uniq = set(), []
+    for row in rows:                      # one line per chosen outcome: keep one per (source state, invocation)
+        k = canon([row["seed"], row["pre"], row["predirs"], row["inv"]])
+        if k not in seen:
+            seen.add(k)
+            uniq.append(row)
+    rows = uniq
     chk.add("states", distinct)
     chk.add("transitions", generated)
+    groups: Dict[str, List[Dict[str, Any]]] = {}
     for n, row in enumerate(rows):
         row["deep"] = (n % deep_every == 0)
+        row["twin"] = (n % 3 == 0)
+        groups.setdefault(canon([row["seed"], row["how"][:-1]]), []).append(row)
     scratch()
-    results = pmap(replay_start, rows, workers=WORKERS, per_item_s=20.0, chunk=60)
+    jobs = [g[i:i + 64] for g in groups.values() for i in range(0, len(g), 64)]
+    rows = [row for j in jobs for row in j]
+    results = [r for rs in pmap(replay_group, jobs, workers=WORKERS, per_item_s=120.0, chunk=1) for r in
+               (rs if isinstance(rs, list) else [rs])]
+    if len(results) != len(rows):
+        raise MachineryError("a replay job hung")
     for row, r in zip(rows, results):
         inv = row["inv"]
-        case = {"kind": "start-transition", "row": {k: row[k] for k in row if k != "deep"}}
+        case = {"kind": "start-transition", "row": {k: row[k] for k in row if k not in ("deep", "twin")}}
         chk.count([row["seed"], row["pre"], row["predirs"], inv],
                   nontrivial=bool(row["pre"]) or not inv["dry"])
         if r.get("hang"):
@@ -568,13 +686,18 @@ for (_k, _v), _t in sorted(TEXT.items()):
 _TEXTS = sorted(((t, k, v) for (k, v), t in TEXT.items() if k in ("T", "TLF")), key=lambda x: -len(x[0]))
 
 
+BINARY = b"\x89PNG\r\n\x1a\n\xff\xfe\x00{% component_block \xe9"      # not UTF-8: symbol ("B", 1), never mixed with others
+
+
 def render(s: List[Dict[str, Any]]) -> bytes:
-    return "".join(TEXT[(x["k"], x["v"])] for x in s).encode("utf-8")
+    return b"".join(BINARY if x["k"] == "B" else TEXT[(x["k"], x["v"])].encode("utf-8") for x in s)
 
 
 def project_content(data: bytes) -> List[Dict[str, Any]]:
     """Symbols of a file: the inverse of render(), plus tags rewritten by the command (raw = false: only tag name
     and arguments are those of the symbol) and "?" for anything else."""
+    if data == BINARY:
+        return [{"k": "B", "v": 1, "raw": True}]
     try:
         text = data.decode("utf-8")
     except UnicodeDecodeError:
@@ -627,20 +750,16 @@ def _show(s: List[Dict[str, Any]]) -> str:
 
 
 def mc_contents(chk: Check, tag: str, alpha: List[int], core: List[int], full_len: int, core_len: int,
-                ext: str = ".html") -> None:
-    w = workdir("x05mcu")
-    cfg, out = w / f"{tag}.cfg", w / f"{tag}.ndjson"
-    cfg.write_text("SPECIFICATION CSpec\nCONSTANTS\n"
-                   f"  Alpha = {_set(alpha)}\n  Core = {_set(core)}\n  FullLen = {full_len}\n  CoreLen = {core_len}\n"
-                   "  LocIdx = {}\n  ExtIdx = {}\n  MaxFiles = 0\nINVARIANT CTheorems\nINVARIANT CExport\n")
-    key = cfg.read_text()
-    if key not in _mc_cache:
-        r = tlc.require_ok(tlc.run("MC_X05U", str(cfg), env={"OUT": str(out)}, workers=1), f"MC_X05U {tag}")
-        rows = tlc.read_ndjson(out)
-        if not rows or len(rows) > r.distinct:
-            raise MachineryError(f"MC_X05U {tag}: {len(rows)} rows exported for {r.distinct} states")
-        _mc_cache[key] = (rows, r.distinct, r.generated)
-    rows, distinct, generated = _mc_cache[key]
+                ext: str = ".html", prefetch: bool = False) -> None:
+    cfgtext = ("SPECIFICATION CSpec\nCONSTANTS\n"
+               f"  Alpha = {_set(alpha)}\n  Core = {_set(core)}\n  FullLen = {full_len}\n  CoreLen = {core_len}\n"
+               "  LocIdx = {}\n  ExtIdx = {}\n  MaxFiles = 0\nINVARIANT CTheorems\nINVARIANT CExport\n")
+    got = export("MC_X05U", tag, cfgtext, prefetch)
+    if got is None:
+        return
+    rows, distinct, generated = got
+    if not rows or len(rows) > distinct:
+        raise MachineryError(f"MC_X05U {tag}: {len(rows)} rows exported for {distinct} states")
     chk.add("states", distinct)
     chk.add("transitions", generated)
     chk.add("contents_undetermined_skipped", distinct - len(rows))
@@ -739,20 +858,16 @@ def replay_tree(row: Dict[str, Any]) -> Dict[str, Any]:
         shutil.rmtree(root, ignore_errors=True)
 
 
-def mc_trees(chk: Check, tag: str, locs: List[int], exts: List[int], max_files: int) -> None:
-    w = workdir("x05mct")
-    cfg, out = w / f"{tag}.cfg", w / f"{tag}.ndjson"
-    cfg.write_text("SPECIFICATION TSpec\nCONSTANTS\n  Alpha = {}\n  Core = {}\n  FullLen = 0\n  CoreLen = 0\n"
-                   f"  LocIdx = {_set(locs)}\n  ExtIdx = {_set(exts)}\n  MaxFiles = {max_files}\n"
-                   "INVARIANT TTheorems\nINVARIANT TExport\n")
-    key = cfg.read_text()
-    if key not in _mc_cache:
-        r = tlc.require_ok(tlc.run("MC_X05U", str(cfg), env={"OUT": str(out)}, workers=1), f"MC_X05U {tag}")
-        rows = tlc.read_ndjson(out)
-        if len(rows) != r.distinct:
-            raise MachineryError(f"MC_X05U {tag}: {len(rows)} rows exported for {r.distinct} states")
-        _mc_cache[key] = (rows, r.distinct, r.generated)
-    rows, distinct, generated = _mc_cache[key]
+def mc_trees(chk: Check, tag: str, locs: List[int], exts: List[int], max_files: int, prefetch: bool = False) -> None:
+    cfgtext = ("SPECIFICATION TSpec\nCONSTANTS\n  Alpha = {}\n  Core = {}\n  FullLen = 0\n  CoreLen = 0\n"
+               f"  LocIdx = {_set(locs)}\n  ExtIdx = {_set(exts)}\n  MaxFiles = {max_files}\n"
+               "INVARIANT TTheorems\nINVARIANT TExport\n")
+    got = export("MC_X05U", tag, cfgtext, prefetch)
+    if got is None:
+        return
+    rows, distinct, generated = got
+    if len(rows) != distinct:
+        raise MachineryError(f"MC_X05U {tag}: {len(rows)} rows exported for {distinct} states")
     chk.add("states", distinct)
     chk.add("transitions", generated)
     scratch()
@@ -780,7 +895,7 @@ USER_DIRS: List[PathT] = [("lib",), ("lib", "sub", "deep"), ("proj", "components
                           ("proj", "my_components"), ("proj", "other"), ("outside",), ("outside", "t"),
                           ("lib", "alpha"), ("proj", "components", "beta"), ("proj", "ui", "alpha")]
 USER_FILES = ["page.html", "index.html", "view.py", "notes.txt", "mail.htm", "old.html.bak", "script.js", "template.html",
-              "alpha.py", "UP.HTML", "style.css"]
+              "alpha.py", "UP.HTML", "style.css", "logo.png"]
 SYMS = [("T", v) for v in (1, 1, 2, 3, 4, 5, 6)] + [("OO", v) for v in (1, 2, 3, 4, 5)] + \
        [("OC", v) for v in (1, 2, 3, 4)] + [("C", v) for v in (1, 2, 3, 4, 5)] + [("E", 1), ("E", 4), ("S", 1), ("S", 2)]
 
@@ -876,7 +991,7 @@ def gen_session(job: Tuple[int, int]) -> Dict[str, Any]:
                 p = d + (rnd.choice(USER_FILES),)
                 if p in dirs or any(d[:i] in files for i in range(1, len(d) + 1)):
                     continue
-                cmd = {"op": "write", "path": list(p), "c": gen_content(rnd)}
+                cmd = {"op": "write", "path": list(p), "c": [_sym("B", 1)] if p[-1].endswith(".png") else gen_content(rnd)}
                 user.add(p)
             elif x < 0.43:
                 d = rnd.choice(USER_DIRS) + ((rnd.choice(T_NAMES),) if rnd.random() < 0.5 else ())
@@ -920,25 +1035,39 @@ def _verdicts(out: str, n: int, what: str) -> List[Tuple[int, int, List[str]]]:
     return rej
 
 
-def validate(traces: List[Dict[str, Any]], what: str = "Trace_X05") -> Tuple[List[Tuple[int, int, List[str]]], int]:
-    w = workdir("x05tr")
-    f = w / "sessions.ndjson"
-    tlc.write_ndjson(f, traces)
-    cfg = w / "trace.cfg"
-    cfg.write_text("SPECIFICATION TrSpec\nINVARIANT WorldWellFormed\n")
-    r = tlc.run("Trace_X05", str(cfg), env={"IN": str(f)}, workers=1)
-    if r.violated:
-        raise MachineryError(f"{what}: the recorder produced an ill-formed world:\n" + "\n".join(r.out.splitlines()[-30:]))
-    tlc.require_ok(r, what)
-    return _verdicts(r.out, len(traces), what), r.distinct
+def validate_start(traces: List[Dict[str, Any]]) -> TlcJob:
+    return TlcJob("Trace_X05", "sessions", "SPECIFICATION TrSpec\nINVARIANT WorldWellFormed\n", rows_in=traces)
 
 
-def validate_sessions(chk: Check, n: int, salt: int = 0) -> None:
-    scratch()
-    traces = pmap(gen_session, [(chk.seed * 7 + salt, i + 1) for i in range(n)], workers=WORKERS, per_item_s=60.0, chunk=10)
-    if any(t.get("hang") for t in traces):
-        raise MachineryError("a recorded session hung")
-    rej, states = validate(traces)
+def validate_finish(job: TlcJob, n: int) -> Tuple[List[Tuple[int, int, List[str]]], int]:
+    d = job.result()
+    if d["violated"]:
+        raise MachineryError("Trace_X05: the recorder produced an ill-formed world:\n" + "\n".join(d["out"].splitlines()[-30:]))
+    job.require_ok()
+    return _verdicts(d["out"], n, "Trace_X05"), d["distinct"]
+
+
+def validate(traces: List[Dict[str, Any]]) -> Tuple[List[Tuple[int, int, List[str]]], int]:
+    return validate_finish(validate_start(traces), len(traces))
+
+
+_sessions: Dict[Tuple[int, int, int], Tuple[List[Dict[str, Any]], TlcJob]] = {}
+
+
+def validate_sessions(chk: Check, n: int, salt: int = 0, prefetch: bool = False) -> None:
+    """Record n sessions on the real commands and have TLC validate them (prefetch: record and start TLC only)."""
+    key = (chk.seed, n, salt)
+    if key not in _sessions:
+        scratch()
+        traces = pmap(gen_session, [(chk.seed * 7 + salt, i + 1) for i in range(n)], workers=WORKERS, per_item_s=60.0,
+                      chunk=10)
+        if any(t.get("hang") for t in traces):
+            raise MachineryError("a recorded session hung")
+        _sessions[key] = (traces, validate_start(traces))
+    if prefetch:
+        return
+    traces, job = _sessions.pop(key)
+    rej, states = validate_finish(job, len(traces))
     for tno, at, clauses in rej:
         t = traces[tno - 1]
         case = {"kind": "session", "commands": [_command(e) for e in t["events"][:at]]}
@@ -974,22 +1103,33 @@ ALPHA = [11, 12, 13, 14, 15, 16, 21, 22, 23, 24, 25, 31, 32, 33, 34, 41, 42, 43,
 CORE = [11, 21, 31, 41, 51, 61]
 
 
+def plan(tier: str) -> List[Tuple[Any, tuple, Dict[str, Any]]]:
+    if tier == "quick":
+        return [(mc_start, ("main", ["alpha", "beta"], ["P", "B"], [1, 3], 2), {}),
+                (mc_start, ("wide", ["alpha", "beta"], ["P", "R", "B", "D", "N"], [1, 2, 4, 5], 1), {}),
+                (mc_contents, ("contents", ALPHA, CORE, 3, 5), {}),
+                (mc_trees, ("trees", list(range(1, 10)), list(range(1, 7)), 1), {}),
+                (validate_sessions, (250,), {})]
+    return [(mc_start, ("main", ["alpha", "beta"], ["P", "B", "D"], [1, 2, 3, 4, 5], 2), {}),
+            (mc_start, ("deep", ["alpha", "beta"], ["P", "B"], [1, 3], 3), {"opts": False}),
+            (mc_start, ("wide", ["alpha", "beta"], ["P", "R", "B", "D", "N"], [1, 2, 3, 4, 5], 2), {"opts": False}),
+            (mc_contents, ("contents", ALPHA, CORE, 3, 7), {}),
+            (mc_contents, ("contents-py", ALPHA, CORE, 2, 4), {"ext": ".py"}),
+            (mc_trees, ("trees", list(range(1, 10)), list(range(1, 7)), 2), {}),
+            (validate_sessions, (2500,), {})]
+
+
+def execute(chk: Check, steps: List[Tuple[Any, tuple, Dict[str, Any]]], ahead: int = 3) -> None:
+    """Run the steps in order; the TLC runs of the next `ahead` steps are started in the background meanwhile."""
+    _sessions.clear()
+    for n, (fn, a, k) in enumerate(steps):
+        for fn2, a2, k2 in steps[n:n + 1 + ahead]:
+            fn2(chk, *a2, prefetch=True, **k2)
+        fn(chk, *a, **k)
+
+
 def core(chk: Check, tier: str) -> None:
-    quick = tier == "quick"
-    if quick:
-        mc_start(chk, "main", ["alpha", "beta"], ["P", "B"], [1, 3], 2)
-        mc_start(chk, "wide", ["alpha", "beta"], ["P", "R", "B", "D", "N"], [1, 2, 4, 5], 1)
-        mc_contents(chk, "contents", ALPHA, CORE, 2, 5)
-        mc_trees(chk, "trees", list(range(1, 10)), list(range(1, 7)), 1)
-        validate_sessions(chk, 150)
-    else:
-        mc_start(chk, "main", ["alpha", "beta"], ["P", "B", "D"], [1, 2, 3, 4, 5], 2)
-        mc_start(chk, "deep", ["alpha", "beta"], ["P", "B"], [1, 3], 3, opts=False)
-        mc_start(chk, "wide", ["alpha", "beta"], ["P", "R", "B", "D", "N"], [1, 2, 3, 4, 5], 2, opts=False)
-        mc_contents(chk, "contents", ALPHA, CORE, 3, 7)
-        mc_contents(chk, "contents-py", ALPHA, CORE, 2, 4, ext=".py")
-        mc_trees(chk, "trees", list(range(1, 10)), list(range(1, 7)), 2)
-        validate_sessions(chk, 2500)
+    execute(chk, plan(tier), ahead=4 if tier == "quick" else 2)
 
 
 def run(tier: str) -> int:
@@ -1048,7 +1188,67 @@ def _mutant(modname: str, edits: List[Tuple[str, str]]):
 START = "django_components.management.commands.startcomponent"
 UPGRADE = "django_components.management.commands.upgradecomponent"
 
-FIXED_UPGRADE = None     # set by _load_fixes()
+# The proposed repairs (proposed_fixes/X05-*.diff) as textual edits, applied in memory by the selftest.
+# The single-quote repair is written against the source with the closed-tag repair applied.
+FIX_KA = [
+    ("from typing import Any\n", "from typing import Any, Tuple\n"),
+    ("\n\nclass Command(BaseCommand):\n", '''
+
+def _close_inline_component_tags(content: str) -> Tuple[str, int]:
+    """
+    Append `{% endcomponent %}` to the `{% component %}` tags that are in the old (inline) syntax.
+    That is, to those that are not self-closing and that are not followed by any `{% endcomponent %}`.
+    """
+    count = 0
+
+    def close_tag(match: "re.Match[str]") -> str:
+        nonlocal count
+        is_self_closing = match.group(2).rstrip().endswith("/")
+        is_closed = re.search(r"{%\\s*endcomponent\\s*%}", content[match.end() :]) is not None
+        if is_self_closing or is_closed:
+            return match.group(0)
+        count += 1
+        return match.group(0) + "{% endcomponent %}"
+
+    # NOTE: The tag itself must not reach over a `%}`
+    tag_re = r\'{%\\s*component\\s*"(\\w+?)"((?:(?!%}).)*)%}\'
+    return re.sub(tag_re, close_tag, content, flags=re.DOTALL), count
+
+
+class Command(BaseCommand):
+'''),
+    ("""                            content_with_closed_components, step0_count = re.subn(
+                                r'({%\\s*component\\s*"(\\w+?)"(.*?)%})(?!.*?{%\\s*endcomponent\\s*%})',
+                                r"\\1{% endcomponent %}",
+                                content,
+                                flags=re.DOTALL,
+                            )
+""",
+     """                            content_with_closed_components, step0_count = _close_inline_component_tags(content)
+""")]
+FIX_KB = [
+    ("is_self_closing = match.group(2).rstrip()", "is_self_closing = match.group(3).rstrip()"),
+    ("""tag_re = r'{%\\s*component\\s*"(\\w+?)"((?:(?!%}).)*)%}'""",
+     """tag_re = r'{%\\s*component\\s*(["\\'])(\\w+?)\\1((?:(?!%}).)*)%}'"""),
+    ("""                                r'{%\\s*component_block\\s*"(\\w+?)"\\s*(.*?)%}',
+                                r'{% component "\\1" \\2%}',""",
+     """                                r'{%\\s*component_block\\s*(["\\'])(\\w+?)\\1\\s*(.*?)%}',
+                                r"{% component \\1\\2\\1 \\3%}","""),
+    ("""r'{%\\s*endcomponent_block\\s*"(\\w+?)"\\s*%}',""", """r'{%\\s*endcomponent_block\\s*(["\\'])(\\w+?)\\1\\s*%}',"""),
+]
+FIX_KC = [('open(file_path, "r+", encoding="utf-8")', 'open(file_path, "r+", encoding="utf-8", newline="")')]
+FIX_KD = [
+    ("from django.core.management.base import BaseCommand, CommandError, CommandParser\n",
+     "from django.core.management.base import BaseCommand, CommandError, CommandParser\n\n"
+     "from django_components.app_settings import app_settings\n"),
+    ("""                component_path = os.path.join(base_dir, "components", name)
+""",
+     """                # First of `COMPONENTS.dirs` (which defaults to `[BASE_DIR / "components"]`)
+                component_dirs = [d[1] if isinstance(d, (tuple, list)) else d for d in app_settings.DIRS]
+                components_root = component_dirs[0] if component_dirs else os.path.join(base_dir, "components")
+                component_path = os.path.join(components_root, name)
+"""),
+]
 
 
 def selftest(tier: str) -> int:
@@ -1091,16 +1291,54 @@ def selftest(tier: str) -> int:
              '                                updated_content, count=1,')])),
         ("upgrade-inline-tags-not-closed", _mutant(UPGRADE, [('r"\\1{% endcomponent %}",', 'r"\\1",')])),
         ("upgrade-any-extension", _mutant(UPGRADE, [('if file.endswith((".html", ".py")):', "if True:")])),
+        ("upgrade-html-extension-typo", _mutant(UPGRADE, [
+            ('if file.endswith((".html", ".py")):', 'if file.endswith((".htm", ".py")):')])),
     ]
 
     def body(chk: Check) -> None:
-        mc_start(chk, "st-main", ["alpha", "beta"], ["P", "B"], [1, 3], 2, opts=False, deep_every=4)
-        mc_start(chk, "st-wide", ["alpha"], ["P", "R", "B", "N"], [1, 4], 1)
-        mc_contents(chk, "st-contents", ALPHA, CORE, 2, 4)
-        mc_trees(chk, "st-trees", list(range(1, 10)), [1, 2, 3], 1)
-        validate_sessions(chk, 40)
+        execute(chk, [(mc_start, ("st-main", ["alpha", "beta"], ["P", "B"], [1, 3], 2), {"opts": False, "deep_every": 4}),
+                      (mc_start, ("st-wide", ["alpha"], ["P", "R", "B", "N"], [1, 4], 1), {}),
+                      (mc_contents, ("st-contents", ALPHA, CORE, 2, 4), {}),
+                      (mc_trees, ("st-trees", list(range(1, 10)), [1, 2, 3], 1), {}),
+                      (validate_sessions, (40,), {})], ahead=4)
 
-    return run_probes(PID, probes, body)
+    rc = run_probes(PID, probes, body)
+
+    # the proposed repairs (proposed_fixes/X05-*.diff) applied in memory: no unexplained failure may appear,
+    # the repaired key must not occur any more, and with all of them nothing may fail, known or not
+    from contextlib import ExitStack
+
+    class Counting(Check):
+        def __init__(self, *a, **k):
+            super().__init__(*a, **k)
+            self.keys: Dict[str, int] = {}
+
+        def violation(self, case, detail, key=None):
+            if key is not None:
+                self.keys[key] = self.keys.get(key, 0) + 1
+            super().violation(case, detail, key)
+
+    KA, KB, KC, KD = ("closed-component-tag:endcomponent-added", "single-quoted-name:tag-not-upgraded",
+                      "crlf-in-rewritten-file:converted-to-lf", "path-omitted-custom-dirs:created-in-base-components")
+    combos = [("closed-tag repair", [(UPGRADE, FIX_KA)], [KA]),
+              ("closed-tag + single-quote repair", [(UPGRADE, FIX_KA + FIX_KB)], [KA, KB]),
+              ("crlf repair", [(UPGRADE, FIX_KC)], [KC]),
+              ("COMPONENTS.dirs repair", [(START, FIX_KD)], [KD]),
+              ("all repairs", [(UPGRADE, FIX_KA + FIX_KB + FIX_KC), (START, FIX_KD)], [KA, KB, KC, KD])]
+    ok = True
+    for label, mods, gone in combos:
+        chk = Counting(PID, "quick", "other", silent=True)
+        with ExitStack() as st:
+            for modname, edits in mods:
+                st.enter_context(_mutant(modname, edits)())
+            body(chk)
+        left = {k: n for k, n in chk.keys.items() if k in gone}
+        good = chk.violations == 0 and not left and (label != "all repairs" or not chk.keys)
+        ok = ok and good
+        print(f"  {label} applied in memory: violations={chk.violations} repaired keys still seen={left} "
+              f"other known-finding cases={sum(n for k, n in chk.keys.items() if k not in gone)} -> "
+              f"{'clean' if good else 'NOT CLEAN'}")
+    return rc if ok else 1
 
 
 # ================================================================ replay
@@ -1115,7 +1353,7 @@ def replay(path: str) -> int:
     if kind == "start-transition":
         r = replay_start(case["row"])
         print(json.dumps(r, indent=1, default=repr))
-        return 0 if r["v"] == "ok" else 1
+        return 1 if r["v"] == "bad" else 0        # "dev": explained by a named deviation (see r["keys"])
     if kind == "upgrade-content":
         chk = Check(PID, "quick", "other", silent=True)
         replay_contents(chk, [case["row"]], case.get("ext", ".html"))
